@@ -25,6 +25,7 @@ use crate::{
             get_prototype_from_constructor, ordinary_define_own_property,
             ordinary_get_own_property,
         },
+        shape::slot::SlotAttributes,
     },
     property::{Attribute, PropertyDescriptor, PropertyKey, PropertyNameKind},
     realm::Realm,
@@ -3460,8 +3461,13 @@ fn array_exotic_define_own_property(
         // 2. If P is "length", then
         PropertyKey::String(s) if s == &StaticJsStrings::LENGTH => {
             // a. Return ? ArraySetLength(A, Desc).
+            let result = array_set_length(obj, desc, context);
 
-            array_set_length(obj, desc, context)
+            // NOTE: Writing "length" deletes elements and validates the value, so the store must
+            // never be served from an inline cache (which would only overwrite the slot).
+            context.slot().attributes |= SlotAttributes::NOT_CACHEABLE;
+
+            result
         }
         // 3. Else if P is an array index, then
         PropertyKey::Index(index) => {
